@@ -1,6 +1,8 @@
 /* C19: zlib header writer -- harness over the real igzip/igzip.c */
 #include "igzip_zlib_hdr.h"
 uint32_t w_info, w_level, w_dict_flag, w_dict_id, w_avail_out;
+size_t g_zo;
+uint8_t w_zold;
 #include "splice_defaults.h"
 #include "igzip/igzip.c"
 
